@@ -658,6 +658,34 @@ func ext۰reflect۰rtype۰NumMethod(fr *frame, args []value) value {
 	return numMethod(fr.i, rt(args))
 }
 
+// MethodByName on a Type: (Method, bool). Only Name, Type and Index are filled in (Func is
+// left invalid: callers in the code under test only test for presence).
+func ext۰reflect۰rtype۰MethodByName(fr *frame, args []value) value {
+	i := fr.i
+	t := rt(args)
+	name := i.concValue(args[1]).(string)
+	mt := i.prog.ImportedPackage("reflect").Type("Method").Object().Type()
+	m := zero(mt).(structure)
+	if !token.IsExported(name) {
+		return tuple{m, false}
+	}
+	ms := i.prog.MethodSets.MethodSet(t)
+	sel := ms.Lookup(nil, name)
+	if sel == nil {
+		return tuple{m, false}
+	}
+	idx := 0
+	for k := 0; k < ms.Len(); k++ {
+		if n := ms.At(k).Obj().Name(); token.IsExported(n) && n < name {
+			idx++
+		}
+	}
+	m[0] = name
+	m[2] = makeReflectType(rtype{sel.Type()})
+	m[4] = idx
+	return tuple{m, true}
+}
+
 func ext۰reflect۰rtype۰NumOut(fr *frame, args []value) value {
 	return sigOf(fr, rt(args), "NumOut").Results().Len()
 }
@@ -1641,7 +1669,7 @@ func newMethod(pkg *ssa.Package, recvType types.Type, name string) *ssa.Function
 var rtypeMethodNames = []string{
 	"Bits", "Elem", "Field", "FieldByName", "In", "Kind", "NumField", "NumIn", "NumMethod", "NumOut",
 	"Out", "Size", "String", "Key", "Len", "IsVariadic", "Name", "PkgPath", "Implements",
-	"AssignableTo", "ConvertibleTo", "Comparable",
+	"AssignableTo", "ConvertibleTo", "Comparable", "MethodByName",
 }
 
 func initReflect(i *interpreter) {
